@@ -266,6 +266,12 @@ func (d *drv) sentOn(ch string) int64 {
 	return n
 }
 
+// channelClosed: the IBC channel object of consumer c exists in the world and is CLOSED (not modelled; monitor clause 13)
+func (d *drv) channelClosed(c int64) bool {
+	ch, ok := d.w.Channels[ccvtypes.ProviderPortID+"/"+chanID(c)]
+	return ok && ch.State == channeltypes.CLOSED
+}
+
 func (d *drv) valIndex(consAddr []byte) int64 {
 	for _, v := range d.w.Vals {
 		if bytes.Equal(v.ConsAddr(), consAddr) {
@@ -306,7 +312,7 @@ func (d *drv) observe(code int64) common.T {
 		cons = append(cons, common.L(c, int64(k.GetConsumerPhase(ctx, id)), spawn, removal,
 			common.B(client), common.B(keys[int64(pGenesis)] > 0), common.B(keys[int64(pEvMin)] > 0), common.B(channel),
 			int64(keys[int64(pValset)]), int64(len(k.GetPendingVSCPackets(ctx, id))), d.sentOn(chanID(c)),
-			common.Ints(optin), common.Ints(extra)))
+			common.Ints(optin), common.Ints(extra), common.B(d.channelClosed(c))))
 	}
 	return common.L(code, n, cons, sc.spawnq, sc.remq)
 }
@@ -372,6 +378,42 @@ func (d *drv) launchOracle(failClient bool) common.T {
 		out = append(out, common.L(c, size, common.B(hasActive), common.B(extfail)))
 	}
 	return out
+}
+
+// markKthClientCall translates the world's "the (k+1)-th CreateClient call fails" into the per-consumer oracle:
+// CreateClient is called once for every attempted consumer (due ids in queue order, at most 200) whose set is
+// non-empty, has an active validator and names no connection; the (k+1)-th of them gets extfail = 1.
+func (d *drv) markKthClientCall(ora common.T, now, k int64) {
+	rows := map[int64][]common.T{}
+	for _, row := range ora.([]common.T) {
+		r := row.([]common.T)
+		rows[r[0].(int64)] = r
+	}
+	attempted := 0
+	for _, e := range d.scanStore().spawnq {
+		entry := e.([]common.T)
+		if entry[0].(int64) > now {
+			break
+		}
+		for _, idv := range entry[1].([]common.T) {
+			if attempted >= 200 {
+				return
+			}
+			attempted++
+			r, ok := rows[idv.(int64)]
+			if !ok || r[1].(int64) == 0 || r[2].(int) == 0 || r[3].(int) != 0 {
+				continue // fails before CreateClient (or names a connection)
+			}
+			if ip, err := d.env.K.GetConsumerInitializationParameters(d.env.Ctx, cid(idv.(int64))); err != nil || ip.ConnectionId != "" {
+				continue
+			}
+			if k == 0 {
+				r[3] = 1
+				return
+			}
+			k--
+		}
+	}
 }
 
 // endOracle: iteration order of the client index, and per consumer whether the validator set computation
@@ -533,16 +575,21 @@ func (d *drv) stepTag(tag int64, parts []json.RawMessage) (common.T, int64) {
 	case 6: // CCV channel handshake completes for c
 		c := num(1)
 		return common.L(6, c), d.bindChannel(c)
-	case 7: // next block after dt ns, BeginBlock; failClient: CreateClient fails during this block
-		dt, failClient := num(1), num(2) != 0
+	case 7: // next block after dt ns, BeginBlock; fault: 0 none, 1 every CreateClient call of this block fails,
+		// 2+k: the (k+1)-th CreateClient call of this block fails
+		dt, fault := num(1), num(2)
 		env.NextBlock(time.Duration(dt))
 		now := fromTime(env.Ctx.BlockTime())
-		ora := d.launchOracle(failClient)
-		if failClient {
+		ora := d.launchOracle(fault == 1)
+		if fault == 1 {
 			d.w.FailAlways["client.CreateClient"] = true
+		} else if fault >= 2 {
+			d.markKthClientCall(ora, now, fault-2)
+			d.w.Faults["client.CreateClient"] = int(fault - 2)
 		}
 		r := common.Tx(env.Ctx, func(ctx sdk.Context) error { return env.Module.BeginBlock(ctx) })
 		delete(d.w.FailAlways, "client.CreateClient")
+		delete(d.w.Faults, "client.CreateClient")
 		code := int64(0)
 		if r.Panic != nil {
 			code = 100
